@@ -22,6 +22,7 @@ def lookup (name : String) : Option Op :=
   (opsPointSpecial name).orElse fun _ =>
   (opsMatSpecial name).orElse fun _ =>
   (opsQuat name).orElse fun _ =>
+  (opsBranch name).orElse fun _ =>
   lookupTyped name
 
 def runLine (line : String) : String :=
